@@ -17,6 +17,7 @@ Trace lines (harness/netsim).  Case header: `<c04|c13|c15|c17> <name> ...`.
   asked <i>                               => getheaders <0|1> … lied <0|1>
   stop                                    => ok | HANG
   banpeer <i> / after                     => ok|err / <sample observation>                 (c13)
+  release <i>                             => held | not-held   peer i completes its version handshake now   (c13)
   peerip / isbanned / ban / unban / redial  see harness/netsim/c13ops.go                      (c13s)
   sendtx / saw <i>                        => ok|err|HANG / invtx <0|1>                      (c15)
   label <i> <class> / rebroadcast         => <node> <CODE> <reason> / seen|not-seen       (c15 corpus scenarios)
@@ -167,12 +168,14 @@ def runC13 (c : CaseIn) : Array String := Id.run do
   let mut peers : List PeerX := []
   let mut out : Array String := #[]
   let mut bannedBy : Option Nat := none
+  let mut released : Option Nat := none   -- the peer that finished its version handshake only after the ban
   for (ln, line) in c.lines do
     let (op, obs) := splitObs line
     let ws := words op
     match ws with
     | "peer" :: _ => if let some px := parsePeer ws obs then peers := peers ++ [px]
     | ["banpeer", i] => bannedBy := some (nat! i)
+    | ["release", i] => released := some (nat! i)
     | ["after"] =>
       match parseObs (words obs) with
       | some (o, _) =>
@@ -184,7 +187,8 @@ def runC13 (c : CaseIn) : Array String := Id.run do
           let target := bannedBy.getD (o.banned.headD 0)
           let ipOf (k : Nat) := ((peers.find? (·.spec.idx == k)).map (·.ip)).getD ""
           let portOf (k : Nat) := ((peers.find? (·.spec.idx == k)).map (·.port)).getD ""
-          let shape := if i != target && ipOf i == ipOf target && portOf i != portOf target
+          let shape := if released == some i then "banned-ip-admitted-after-handshake"
+            else if i != target && ipOf i == ipOf target && portOf i != portOf target
             then "banpeer-same-ip-other-port" else "banned-peer-connected"
           out := out.push s!"ORACLE-FAIL C13 case {c.num} line {ln}: shape={shape} peer {i} ({ipOf i}:{portOf i}) is still connected although its address is banned (ban aimed at peer {target}, {ipOf target}:{portOf target}): {obs}"
         -- a ban is per IP: every listed peer sharing the IP of a banned peer is reported banned as well
